@@ -187,16 +187,32 @@ NESTS_FUT = ("nest_jj", "nest_jr", "nest_rj", "nest_jt", "nest_gj")
 NESTS_STR = ("nest_mm", "nest_cm", "nest_gm")
 
 
-def gen_nest(rng, count, tag, panic=0.02, combs=None):
-    """two inner combinators over the two halves of the leaves, one outer combinator over them (harness build_nest); no model: monitors only"""
+def _local_fires(script, i, half):
+    """keep, among the wake-ups a leaf performs inside its polls, only those of leaves below the same inner combinator"""
+    def fix(step):
+        if not step.startswith("!"):
+            return step
+        f, _, rest = step[1:].partition(":")
+        keep = [x for x in f.split("+") if x == "s" or (int(x.split(".")[0]) < half) == (i < half)]
+        return ("!" + "+".join(keep) + ":" if keep else "") + rest
+    return ",".join(fix(st) for st in script.split(",")) if script else script
+
+
+def gen_nest(rng, count, tag, panic=0.02, combs=None, local=False):
+    """two inner combinators over the two halves of the leaves, one outer combinator over them (harness build_nest).  No Coq model of a nest:
+       monitors only - except nest_jj / nest_mm with local=True (no leaf wakes a leaf of the other inner combinator from inside a poll), which the
+       runner co-simulates by composing the extracted model with itself (runner/main.ml nest_trace)"""
     out = []
     for c in range(count):
         comb = rng.choice(combs or (NESTS_FUT + NESTS_STR))
         n = rng.randint(2, 6)
         if comb in NESTS_FUT:
-            scs = ";".join(fscript(rng, n, i, False, panic) for i in range(n))
+            scs = [fscript(rng, n, i, False, panic) for i in range(n)]
         else:
-            scs = ";".join(sscript(rng, n, i, panic) for i in range(n))
+            scs = [sscript(rng, n, i, panic) for i in range(n)]
+        if local:
+            scs = [_local_fires(sc, i, n // 2) for i, sc in enumerate(scs)]
+        scs = ";".join(scs)
         ops = ops_executor(rng, n) if rng.random() < 0.5 else ops_adversarial(rng, n)
         out.append(f"{tag}{c} {comb} nest n={n} {scs} | {' '.join(ops)}")
     return out
